@@ -468,6 +468,36 @@ def _subst_atoms(lin, mapping):
 
 
 _WRITES = {}
+_EXCL = {}
+
+
+def _borrows_excl(F, callee, depth=0):
+    """may the repository function take an exclusive RefCell borrow (itself or through what it calls)?"""
+    key = (id(F), callee)
+    if key in _EXCL:
+        return _EXCL[key]
+    _EXCL[key] = False
+    f = F.fns.get(callee)
+    out = False
+    if f is None or not f.get("mir") or depth > 6:
+        out = True
+    else:
+        for blk in f["mir"]["blocks"]:
+            tt = blk["term"]
+            if tt["k"] != "call" or blk.get("cleanup"):
+                continue
+            c = tt.get("callee")
+            if c is None:
+                out = True
+            elif REFCELL_RX.match(c) and not c.endswith("::borrow"):
+                out = True
+            elif c in F.fns and _borrows_excl(F, c, depth + 1):
+                out = True
+            if out:
+                break
+    _EXCL[key] = out
+    return out
+
 
 
 def _writes(F, callee, depth=0):
@@ -530,6 +560,10 @@ def _stale(B, sym, d, chosen, site_bb, F=None):
             l_ = r[2] if r[0] in ("var", "arg") and len(r) > 2 else (r[1] if r[0] == "tmp" else None)
             if isinstance(l_, int) and (B.local_ty(l_) or "").lstrip().startswith("&mut"):
                 mroots.add(l_)
+    # ... and owned values the test looks at (`v.len()` of a local Vec): changed by whoever is handed `&mut v` in between
+    for x in M.subterms(sym):
+        if x[0] in ("var", "arg") and len(x) > 2 and isinstance(x[2], int) and x[2] in B.mut_borrows():
+            mroots.add(x[2])
     cells = any(x[0] == "call" and x[1] and REFCELL_RX.match(x[1]) for x in M.subterms(sym))
     if not locs and not fields and not mroots and not cells:
         return False
@@ -546,12 +580,16 @@ def _stale(B, sym, d, chosen, site_bb, F=None):
                     continue     # the site's own result
                 return True
     if cells:
-        # read through a RefCell: an exclusive borrow taken in between may change what was read
+        # read through a RefCell: an exclusive borrow taken in between — here or in a repository function called in between —
+        # may change what was read
         for bi in between:
             tt = B.blocks[bi]["term"]
-            if tt["k"] == "call" and bi != site_bb and not B.blocks[bi].get("cleanup") and tt.get("callee") and REFCELL_RX.match(tt["callee"]) \
-                    and not tt["callee"].endswith("::borrow"):
-                return True
+            if tt["k"] == "call" and bi != site_bb and not B.blocks[bi].get("cleanup"):
+                cal = tt.get("callee")
+                if cal and REFCELL_RX.match(cal) and not cal.endswith("::borrow"):
+                    return True
+                if cal is None or (F is not None and cal in F.fns and _borrows_excl(F, cal)):
+                    return True
     if fields or mroots:
         names = {n for _, n in fields}
         roots = {r for r, _ in fields} | mroots
